@@ -21,6 +21,7 @@
        WExecEnd i ok  Run returns (environment chooses ok)
        WAfter i early the error switch (:161-193), doneCount (:195), repeat test (:198), done channel (:206);
                       early = the status read at :162 preceded a Signal that has flipped the node since
+                      (a command that fails while the cancel flag is set is labelled canceled: fix 614b59e)
        WRetryWake i   after the retry interval: status := none, unconditionally (:187)
        WRepeatWake i  after the repeat interval: back to the loop test
        WFinish i      running -> finished (:213), worker gone
